@@ -154,6 +154,10 @@ def run(chk, replay=None):
         kind = ev.get("ev")
         # key: the event kind + in which position kinds the generator mentioned the offending register
         mk = byid[row["id"]].get("mention_kinds", {}).get("r%s" % ev.get("reg"))
+        if not mk and kind == "alloc" and "r%s" % ev.get("reg") in (row.get("dead_scratch") or []):
+            # (random bodies carry no mention kinds: the harness saw that the source mentions this register only
+            #  in code that constant folding removed -- the same class as the scenario kind `const_dead`)
+            mk = ["const_dead"]
         if mk:
             key = "%s:mentioned-as:%s" % (kind, "+".join(sorted(set(mk))))
         else:
